@@ -25,5 +25,5 @@ Separate Extraction
   EngineRefines.checkedb EngineRefines.readableb EngineRefines.db_alloc_okb
   EngineR.run_tx_r
   Engine.root_bucket Engine.begin_w EngineScan.txm_step EngineScan.tx_state
-  EngineScan.ovl_get EngineScan.ovl_cget EngineScan.ovl_scan EngineScan.ovl_seek EngineScan.ovl_range
+  EngineScan.ovl_bucket Engine.b_next EngineScan.ovl_get EngineScan.ovl_cget EngineScan.ovl_scan EngineScan.ovl_seek EngineScan.ovl_range
   EngineScan.tx_get EngineScan.tx_scan EngineScan.tx_seek EngineScan.tx_range.
